@@ -1221,3 +1221,213 @@ def trimmed_sample(n_ents: int = 40) -> bytes:
     lumps[L.ENTITIES.value] = (ents, p['lumps'][L.ENTITIES.value]['ver'], False)
     game = [(g['id'], g['flags'], g['ver'], g['data']) for g in p['game']]
     return build_file(p['magic'], p['version'], p['revision'], False, lumps, game)
+
+
+# ---------------------------------------------------------------------------------------------------------
+# world -> library objects through the public constructors (C11 assigns these to the views)
+
+class Builder:
+    """Inverse of the Observer.  Only the lists present in `world` are built; a reference ['x', n] is built
+    from world['extras'][list][n] and is *not* put into the list (the writers have to add it)."""
+
+    LISTS = ['textures', 'texinfo', 'planes', 'vertexes', 'surfedges', 'primitives', 'orig_faces', 'faces',
+             'hdr_faces', 'brushes', 'visleafs', 'nodes']
+
+    def __init__(self, world: dict):
+        self.w = world
+        self.ex = world.get('extras', {})
+        self.objs: dict[str, list] = {}
+        self.extra_objs: dict[tuple, Any] = {}
+        self.texdata_objs: dict[int, Any] = {}
+        self.edge_objs: dict[int, Any] = {}
+        self.vmf: Optional[VMF] = None
+        self.ent_objs: list = []
+
+    def ref(self, lst: str, r):
+        if r is None:
+            return None
+        if isinstance(r, list):
+            key = (lst, r[1])
+            if key not in self.extra_objs:
+                self.extra_objs[key] = None  # cycle guard
+                self.extra_objs[key] = self.make(lst, self.ex[lst][r[1]])
+            return self.extra_objs[key]
+        return self.get_list(lst)[r]
+
+    def get_list(self, lst: str) -> list:
+        if lst not in self.objs:
+            self.objs[lst] = out = []
+            recs = self.w[lst]
+            if lst == 'nodes':
+                # two passes: children may point forward
+                for rec in recs:
+                    out.append(self.make_node(rec))
+                for rec, node in zip(recs, out):
+                    node.child_neg = self.child(rec['neg'])
+                    node.child_pos = self.child(rec['pos'])
+            else:
+                for rec in recs:
+                    out.append(self.make(lst, rec))
+        return self.objs[lst]
+
+    def child(self, c):
+        if c is None:
+            return None
+        return self.ref('visleafs' if c[0] == 'l' else 'nodes', c[1])
+
+    def make(self, lst: str, rec):
+        if lst == 'textures':
+            return rec
+        if lst == 'vertexes':
+            return Vec(*rec)
+        if lst == 'planes':
+            return B.Plane(Vec(*rec['n']), rec['d'], B.PlaneType(rec['t']))
+        if lst == 'texinfo':
+            k = rec['td']
+            if k not in self.texdata_objs:
+                t = self.w['texdata'][k]
+                self.texdata_objs[k] = B.TexData(t['mat'], Vec(*t['refl']), t['w'], t['h'])
+            return B.TexInfo(Vec(*rec['s'][:3]), rec['s'][3], Vec(*rec['t'][:3]), rec['t'][3],
+                             Vec(*rec['ls'][:3]), rec['ls'][3], Vec(*rec['lt'][:3]), rec['lt'][3],
+                             B.SurfFlags(rec['flags']), self.texdata_objs[k])
+        if lst == 'surfedges':
+            e = rec['e']
+            a, b = self.ref('vertexes', rec['a']), self.ref('vertexes', rec['b'])
+            if e not in self.edge_objs:
+                self.edge_objs[e] = B.Edge(b, a) if rec['rev'] else B.Edge(a, b)
+            return self.edge_objs[e].opposite if rec['rev'] else self.edge_objs[e]
+        if lst == 'primitives':
+            return B.Primitive(rec['type'], list(rec['inds']), [Vec(*v) for v in rec['verts']])
+        if lst in ('faces', 'orig_faces', 'hdr_faces'):
+            return B.Face(
+                self.ref('planes', rec['plane']), rec['side'], rec['on_node'],
+                [self.ref('surfedges', e) for e in rec['edges']], self.ref('texinfo', rec['texinfo']),
+                rec['disp'], rec['fog'], bytes.fromhex(rec['styles']), rec['lmoff'], rec['area'],
+                tuple(rec['lm_mins']), tuple(rec['lm_size']), self.ref('orig_faces', rec['orig']),
+                [self.ref('primitives', p) for p in rec['prims']], rec['dyn'], rec['smooth'], rec['hid'], rec['vflags'])
+        if lst == 'brushes':
+            return B.Brush(B.BrushContents(rec['contents']), [
+                B.BrushSide(self.ref('planes', s['plane']), self.ref('texinfo', s['texinfo']), s['disp'], s['bevel'], s['bits'])
+                for s in rec['sides']])
+        if lst == 'visleafs':
+            return B.VisLeaf(B.BrushContents(rec['contents']), rec['cluster'], rec['area'], B.VisLeafFlags(rec['flags']),
+                             Vec(*rec['mins']), Vec(*rec['maxes']), [self.ref('faces', f) for f in rec['faces']],
+                             [self.ref('brushes', b) for b in rec['brushes']], rec['water_id'],
+                             bytes.fromhex(rec['ambient']), rec['dist'])
+        if lst == 'nodes':
+            node = self.make_node(rec)
+            node.child_neg = self.child(rec['neg'])
+            node.child_pos = self.child(rec['pos'])
+            return node
+        raise KeyError(lst)
+
+    def make_node(self, rec):
+        return B.VisTree(self.ref('planes', rec['plane']), Vec(*rec['mins']), Vec(*rec['maxes']),
+                         [self.ref('faces', f) for f in rec['faces']], rec['area'])
+
+    def make_ents(self) -> VMF:
+        if self.vmf is None:
+            vmf = self.vmf = VMF()
+            for i, rec in enumerate(self.w['ents']):
+                if i == 0:
+                    ent = vmf.spawn
+                    for k, v in rec['kv']:
+                        ent[k] = v
+                else:
+                    ent = Entity(vmf, dict(rec['kv']))
+                    vmf.add_ent(ent)
+                for o in rec['outs']:
+                    name, inst_out, targ, inp, inst_in, params, delay, times, comma = o
+                    ent.add_out(Output(name, targ, inp, params, delay, times=times, inst_out=inst_out, inst_in=inst_in,
+                                       comma_sep=comma))
+                self.ent_objs.append(ent)
+        return self.vmf
+
+    def make_kv(self, tree) -> Keyvalues:
+        def rec(name, val):
+            if isinstance(val, list):
+                return Keyvalues(name, [rec(n, v) for n, v in val])
+            return Keyvalues(name, val)
+        return Keyvalues.root(*[rec(n, v) for n, v in tree])
+
+    def views(self) -> dict:
+        """{view name: value} for every view the world describes."""
+        w = self.w
+        out: dict = {}
+        for lst in self.LISTS:
+            if lst in w:
+                out[lst] = self.get_list(lst)
+        if 'water_leaf_info' in w:
+            out['water_leaf_info'] = [B.LeafWaterInfo(r['surf_z'], r['min_z'], self.ref('texinfo', r['texinfo']))
+                                      for r in w['water_leaf_info']]
+        if 'visibility' in w:
+            v = w['visibility']
+            out['visibility'] = None if v is None else B.Visibility([bytearray.fromhex(x) for x in v['pvs']],
+                                                                    [bytearray.fromhex(x) for x in v['pas']])
+        if 'ents' in w:
+            out['ents'] = self.make_ents()
+        if 'bmodels' in w:
+            self.make_ents()
+            bm: WeakKeyDictionary = WeakKeyDictionary()
+            by_cls: dict = {}
+            for ent, r in zip(self.ent_objs, w['bmodels']):
+                if r is None:
+                    continue
+                if r['cls'] not in by_cls:
+                    by_cls[r['cls']] = B.BModel(Vec(*r['mins']), Vec(*r['maxes']), Vec(*r['origin']), self.ref('nodes', r['node']),
+                                                [self.ref('faces', f) for f in r['faces']],
+                                                None if r['phys_kv'] is None else self.make_kv(r['phys_kv']),
+                                                [bytes.fromhex(s) for s in r['solids']])
+                bm[ent] = by_cls[r['cls']]
+            out['bmodels'] = bm
+        if 'cubemaps' in w:
+            out['cubemaps'] = [B.Cubemap(Vec(*c['origin']), c['size']) for c in w['cubemaps']]
+        if 'overlays' in w:
+            out['overlays'] = [
+                B.Overlay(o['id'], Vec(*o['origin']), Vec(*o['normal']), self.ref('texinfo', o['texinfo']), len(o['faces']),
+                          list(o['faces']), o['order'], o['u'][0], o['u'][1], o['v'][0], o['v'][1],
+                          Vec(*o['uv1']), Vec(*o['uv2']), Vec(*o['uv3']), Vec(*o['uv4']), o['fade'][0], o['fade'][1],
+                          o['levels'][0], o['levels'][1], o['levels'][2], o['levels'][3])
+                for o in w['overlays']]
+        if 'props' in w:
+            out['props'] = [
+                B.StaticProp(p['model'], Vec(*p['origin']), Angle(*p['angles']), Vec(*p['scaling']),
+                             {self.ref('visleafs', x) for x in p['leafs']}, p['solidity'], B.StaticPropFlags(p['flags']), p['skin'],
+                             p['fade'][0], p['fade'][1], Vec(*p['lighting']), p['fade_scale'], p['dx'][0], p['dx'][1],
+                             p['cpu'][0], p['cpu'][1], p['gpu'][0], p['gpu'][1], Vec(*p['tint']), p['renderfx'], p['xbox'],
+                             p['lightmap'][0], p['lightmap'][1])
+                for p in w['props']['props']]
+        if 'detail_props' in w:
+            lst = []
+            for p in w['detail_props']:
+                common = (Vec(*p['origin']), Angle(*p['angles']), B.DetailPropOrientation(p['orient']), p['leaf'],
+                          tuple(p['lighting']), tuple(p['styles']), p['sway'])
+                if p['kind'] == 'model':
+                    lst.append(B.DetailPropModel(*common, p['model']))
+                else:
+                    spr = (p['scale'], tuple(p['dims'][:2]), tuple(p['dims'][2:]), tuple(p['tex'][:2]), tuple(p['tex'][2:]))
+                    if p['kind'] == 'sprite':
+                        lst.append(B.DetailPropSprite(*common, *spr))
+                    else:
+                        lst.append(B.DetailPropShape(*common, *spr, p['cross'], p['shape_angle'], p['shape_size']))
+            out['detail_props'] = lst
+        if 'pakfile' in w:
+            buf = io.BytesIO()
+            zf = zipfile.ZipFile(buf, 'a', zipfile.ZIP_STORED)
+            for name, data in w['pakfile']:
+                zf.writestr(zipfile.ZipInfo(name, (2004, 11, 16, 0, 0, 0)), bytes.fromhex(data))
+            out['pakfile'] = zf
+        return out
+
+
+ASSIGN_ORDER = OBSERVE_ORDER
+
+
+def assign_views(bsp, world: dict) -> None:
+    views = Builder(world).views()
+    if 'props' in world and world['props'].get('version'):
+        bsp.static_prop_version = SPV[world['props']['version']]
+        bsp.game_lumps[b'sprp'].version = SPV[world['props']['version']].version
+    for name in ASSIGN_ORDER:
+        if name in views:
+            setattr(bsp, name, views[name])
